@@ -348,7 +348,13 @@ func (i *iteratorRole) IsEnabled() bool {
 	if i == nil || i.template == nil {
 		return false
 	}
-	return i.template.IsEnabled()
+	if i.template.IsEnabled() {
+		return true
+	}
+	// The template itself is never processed, only its copies are: if its enabled field is an expression
+	// (e.g. one which depends on the iterator variable), it is the generated roles which tell whether anything
+	// is enabled here. ProcessTemplates has already dropped the disabled ones.
+	return len(i.Roles) > 0
 }
 
 func (i *iteratorRole) setParent(role Updatable) {
